@@ -1,4 +1,297 @@
 package vg
 
-// RunWorker dispatches a worker command line.
-func RunWorker(args []string) int { return 2 }
+import (
+	"encoding/json"
+	"fmt"
+	"os"
+	"sort"
+	"strconv"
+	"strings"
+	"time"
+)
+
+// VReport is a violation as reported by a worker.
+type VReport struct {
+	Prop    string      `json:"prop"`
+	Sig     string      `json:"sig"`
+	RID     string      `json:"rid,omitempty"`
+	Msg     string      `json:"msg"`
+	Witness interface{} `json:"witness,omitempty"`
+}
+
+// Report is what one worker process hands back to the check command.
+type Report struct {
+	Property     string            `json:"property"`
+	Tier         string            `json:"tier"`
+	Seed         uint64            `json:"seed"`
+	Shard        int               `json:"shard"`
+	Shards       int               `json:"shards"`
+	Race         bool              `json:"race"`
+	Evaluations  int64             `json:"evaluations"`
+	Distinct     []uint64          `json:"distinct,omitempty"`   // hashes of distinct non-trivial cases
+	DistinctN    int64             `json:"distinct_n,omitempty"` // distinct cases of a disjointly sharded enumeration
+	Exhaustive   bool              `json:"exhaustive,omitempty"`
+	Samples      []interface{}     `json:"samples,omitempty"`
+	Violations   []VReport         `json:"violations,omitempty"`
+	OtherProps   map[string]int64  `json:"other_props,omitempty"` // violations of other properties seen in this workload
+	Inconclusive []string          `json:"inconclusive,omitempty"`
+	Counters     map[string]uint64 `json:"counters,omitempty"`
+	Stats        map[string]int64  `json:"stats,omitempty"`
+	Interleave   []uint64          `json:"interleave,omitempty"` // distinct interleaving signatures
+	Notes        []string          `json:"notes,omitempty"`
+	WallS        float64           `json:"wall_s"`
+	Done         bool              `json:"done"`
+}
+
+// RunCtx is the context of one worker run.
+type RunCtx struct {
+	Prop   string
+	Tier   string
+	Seed   uint64
+	Shard  int
+	Shards int
+	Race   bool
+	Rep    *Report
+	out    string
+	dset   map[uint64]bool
+	iset   map[uint64]bool
+	maxV   int
+}
+
+// Thorough reports whether the thorough tier is running.
+func (c *RunCtx) Thorough() bool { return c.Tier == "thorough" }
+
+// N picks the quick or thorough value; race builds get a fraction.
+func (c *RunCtx) N(quick, thorough int) int {
+	n := quick
+	if c.Thorough() {
+		n = thorough
+	}
+	return n
+}
+
+// Mine reports whether case i belongs to this shard.
+func (c *RunCtx) Mine(i int) bool { return c.Shards <= 1 || i%c.Shards == c.Shard }
+
+// Eval counts an evaluated case.
+func (c *RunCtx) Eval(n int64) { c.Rep.Evaluations += n }
+
+// Distinct records a distinct non-trivial case by hash.
+func (c *RunCtx) Distinct(h uint64) {
+	if len(c.dset) < 400000 {
+		c.dset[h] = true
+	}
+}
+
+// Interleaving records an interleaving signature.
+func (c *RunCtx) Interleaving(h uint64) {
+	if len(c.iset) < 400000 {
+		c.iset[h] = true
+	}
+}
+
+// Sample keeps up to five sample cases.
+func (c *RunCtx) Sample(v interface{}) {
+	if len(c.Rep.Samples) < 5 {
+		c.Rep.Samples = append(c.Rep.Samples, v)
+	}
+}
+
+// Stat adds to a statistic.
+func (c *RunCtx) Stat(k string, d int64) {
+	if c.Rep.Stats == nil {
+		c.Rep.Stats = map[string]int64{}
+	}
+	c.Rep.Stats[k] += d
+}
+
+// Counters merges hook coverage counters.
+func (c *RunCtx) Counters(m map[string]uint64) {
+	if c.Rep.Counters == nil {
+		c.Rep.Counters = map[string]uint64{}
+	}
+	for k, v := range m {
+		c.Rep.Counters[k] += v
+	}
+}
+
+// Violation records a violation of the property under check (or counts one of
+// another property).
+func (c *RunCtx) Violation(v VReport) {
+	if v.Prop != c.Prop {
+		if c.Rep.OtherProps == nil {
+			c.Rep.OtherProps = map[string]int64{}
+		}
+		c.Rep.OtherProps[v.Prop+"/"+v.Sig]++
+		return
+	}
+	// keep at most a few witnesses per signature
+	n := 0
+	for _, o := range c.Rep.Violations {
+		if o.Sig == v.Sig {
+			n++
+		}
+	}
+	if n >= 3 {
+		v.Witness = nil
+		if n >= 50 {
+			return
+		}
+	}
+	c.Rep.Violations = append(c.Rep.Violations, v)
+}
+
+// Inconclusive records an inconclusive outcome.
+func (c *RunCtx) Inconclusive(s string) {
+	if len(c.Rep.Inconclusive) < 20 {
+		c.Rep.Inconclusive = append(c.Rep.Inconclusive, s)
+	}
+}
+
+// Flush writes the report (also called periodically so that a crash leaves
+// the progress so far).
+func (c *RunCtx) Flush(done bool) {
+	c.Rep.Done = done
+	c.Rep.Distinct = c.Rep.Distinct[:0]
+	for h := range c.dset {
+		c.Rep.Distinct = append(c.Rep.Distinct, h)
+	}
+	c.Rep.Interleave = c.Rep.Interleave[:0]
+	for h := range c.iset {
+		c.Rep.Interleave = append(c.Rep.Interleave, h)
+	}
+	b, _ := json.Marshal(c.Rep)
+	tmp := c.out + ".tmp"
+	if err := os.WriteFile(tmp, b, 0o644); err == nil {
+		os.Rename(tmp, c.out)
+	}
+}
+
+// WAL appends a line to the worker's write-ahead log (what is about to run).
+func (c *RunCtx) WAL(format string, a ...interface{}) {
+	f, err := os.OpenFile(c.out+".wal", os.O_CREATE|os.O_WRONLY|os.O_TRUNC, 0o644)
+	if err != nil {
+		return
+	}
+	fmt.Fprintf(f, format+"\n", a...)
+	f.Close()
+}
+
+// Runner executes one property's workload in a worker.
+type Runner func(c *RunCtx)
+
+var runners = map[string]Runner{}
+
+// Register adds a property runner.
+func Register(prop string, r Runner) { runners[prop] = r }
+
+// RunWorker dispatches a worker command line:
+//
+//	run <prop> --tier T --seed S --shard i/n --out file [--race]
+//	replay <file>
+func RunWorker(args []string) int {
+	if len(args) == 0 {
+		return 2
+	}
+	switch args[0] {
+	case "run":
+		if len(args) < 2 {
+			return 2
+		}
+		c := &RunCtx{Prop: args[1], Tier: "quick", Seed: 1, Shards: 1, dset: map[uint64]bool{}, iset: map[uint64]bool{}}
+		for i := 2; i < len(args); i++ {
+			switch args[i] {
+			case "--tier":
+				i++
+				c.Tier = args[i]
+			case "--seed":
+				i++
+				c.Seed, _ = strconv.ParseUint(args[i], 10, 64)
+			case "--shard":
+				i++
+				p := strings.Split(args[i], "/")
+				c.Shard, _ = strconv.Atoi(p[0])
+				c.Shards, _ = strconv.Atoi(p[1])
+			case "--out":
+				i++
+				c.out = args[i]
+			case "--race":
+				c.Race = true
+			}
+		}
+		r := runners[c.Prop]
+		if r == nil {
+			fmt.Fprintln(os.Stderr, "no runner for", c.Prop)
+			return 2
+		}
+		c.Rep = &Report{Property: c.Prop, Tier: c.Tier, Seed: c.Seed, Shard: c.Shard, Shards: c.Shards, Race: c.Race}
+		t0 := time.Now()
+		c.Flush(false)
+		r(c)
+		c.Rep.WallS = time.Since(t0).Seconds()
+		c.Flush(true)
+		return 0
+	case "replay":
+		if len(args) < 2 {
+			return 2
+		}
+		return replayFile(args[1])
+	case "list":
+		var ps []string
+		for p := range runners {
+			ps = append(ps, p)
+		}
+		sort.Strings(ps)
+		fmt.Println(strings.Join(ps, " "))
+		return 0
+	}
+	return 2
+}
+
+// Replayer re-executes a witness and reports whether the violation reproduced.
+type Replayer func(witness json.RawMessage) (reproduced bool, detail string)
+
+var replayers = map[string]Replayer{}
+
+// RegisterReplayer adds a witness kind.
+func RegisterReplayer(kind string, r Replayer) { replayers[kind] = r }
+
+func replayFile(path string) int {
+	b, err := os.ReadFile(path)
+	if err != nil {
+		fmt.Fprintln(os.Stderr, err)
+		return 2
+	}
+	var w struct {
+		Kind      string          `json:"kind"`
+		Violation VReport         `json:"violation"`
+		Witness   json.RawMessage `json:"witness"`
+	}
+	if err := json.Unmarshal(b, &w); err != nil {
+		fmt.Fprintln(os.Stderr, err)
+		return 2
+	}
+	r := replayers[w.Kind]
+	if r == nil {
+		fmt.Printf("witness kind %q has no replayer; the file itself is the witness\n", w.Kind)
+		return 0
+	}
+	n, hit := 0, 0
+	var last string
+	for i := 0; i < 200; i++ {
+		ok, d := r(w.Witness)
+		n++
+		if ok {
+			hit++
+			last = d
+			if hit >= 3 {
+				break
+			}
+		}
+	}
+	fmt.Printf("replay: reproduced %d of %d executions\n%s\n", hit, n, last)
+	if hit > 0 {
+		return 1
+	}
+	return 0
+}
